@@ -662,18 +662,20 @@ def main(tier: str) -> int:
     ]
     if tier == 'quick':
         byte_ideal, byte_asis_len = ('WireMime_ideal.cfg', 6), 5
-        line_cfgs = [('WireMimeLines_free_asis.cfg', None),
-                     ('WireMimeLines_nest_asis.cfg', 'WireMimeLines_nest_ideal.cfg')]
+        # (as-is cfg, ideal cfg or None, dump the as-is states for execution)
+        line_cfgs = [('WireMimeLines_free_asis.cfg', None, True),
+                     ('WireMimeLines_nest_asis.cfg', 'WireMimeLines_nest_ideal.cfg', True)]
         e2e_byte_len = {'dict': 4, 'maildir': 3}
         e2e_line_max = {'dict': 2, 'maildir': 1}
         e2e_sample = {'dict': 700, 'maildir': 160}
         long_n = 0
     else:
         byte_ideal, byte_asis_len = ('WireMime_ideal7.cfg', 7), 6
-        line_cfgs = [('WireMimeLines_free5_asis.cfg', 'WireMimeLines_free5_ideal.cfg'),
-                     ('WireMimeLines_nest8_asis.cfg', 'WireMimeLines_nest8_ideal.cfg')]
+        line_cfgs = [('WireMimeLines_free5_asis.cfg', 'WireMimeLines_free5_ideal.cfg', False),
+                     ('WireMimeLines_free_asis.cfg', 'WireMimeLines_free_ideal.cfg', True),
+                     ('WireMimeLines_nest7_asis.cfg', 'WireMimeLines_nest7_ideal.cfg', True)]
         e2e_byte_len = {'dict': 5, 'maildir': 4}
-        e2e_line_max = {'dict': 4, 'maildir': 3}
+        e2e_line_max = {'dict': 3, 'maildir': 2}
         e2e_sample = {'dict': 30000, 'maildir': 4000}
         long_n = 60
 
@@ -693,13 +695,18 @@ def main(tier: str) -> int:
             'byte_asis': lambda: wc.dump_states(
                 'WireMime.tla', wc.cfg_with_fixed(cfg, fixed, tmp), workers=6),
         }
-        for i, (asis, ideal) in enumerate(line_cfgs):
+        for i, (asis, ideal, dump) in enumerate(line_cfgs):
             if ideal:
                 jobs[f'line_ideal{i}'] = (lambda ideal=ideal: tlc.run_tlc(
                     'WireMimeLines.tla', ideal, workers=4, deadlock=False))
-            jobs[f'line_asis{i}'] = (lambda asis=asis: wc.dump_states(
-                'WireMimeLines.tla', wc.cfg_with_fixed(asis, fixed, tmp), workers=4))
-        got = wc.run_parallel(jobs, threads=8)
+            if dump:
+                jobs[f'line_asis{i}'] = (lambda asis=asis: wc.dump_states(
+                    'WireMimeLines.tla', wc.cfg_with_fixed(asis, fixed, tmp), workers=4))
+            else:
+                jobs[f'line_asis{i}'] = (lambda asis=asis: tlc.run_tlc(
+                    'WireMimeLines.tla', wc.cfg_with_fixed(asis, fixed, tmp), workers=4,
+                    deadlock=False))
+        got = wc.run_parallel(jobs, threads=8 if tier == 'quick' else 4)
     finally:
         shutil.rmtree(tmp, ignore_errors=True)
     for name, r in got.items():
@@ -719,8 +726,9 @@ def main(tier: str) -> int:
         'counterexample': [list(st.get('s', ())) for _l, st in res.trace][-1:]}
     bstates = got['byte_asis'][0]
     lstates = []
-    for i in range(len(line_cfgs)):
-        lstates += got[f'line_asis{i}'][0]
+    for i, (_a, _i, dump) in enumerate(line_cfgs):
+        if dump:
+            lstates += got[f'line_asis{i}'][0]
     run.notes['tlc_wall_s'] = timer.lap()
 
     for st in bstates:
